@@ -856,6 +856,7 @@ func propC14(c *Ctx) {
 		idx++
 	}
 
+	c.c14ManyCalls(g)
 	s2 := c.suite("aka-setter-sizes", "oracle",
 		"SetAttr on a prepared AKA' packet, exhaustive in the offered size 0..300 for RAND, AUTN, MAC (only 16 accepted), KDF (only 2), RES (only 4..16), KDF_INPUT (all accepted), and unsupported attribute types (0,4,5,10,12,13,14,22,25,133,135,200,255: always refused); the packet holds a previous valid value of that attribute in every second case; accepted => read-back equals the value and Marshal equals the independent encoder; refused => every attribute reads back unchanged and Marshal is unchanged; distinct by (packet, type, value)")
 	idx = 0
